@@ -567,7 +567,7 @@ Definition ok (c : case_t) : bool := Model.case_ok c.
 
 struct Ctx {
     sum: Summary, shards: CoqShards, budget: usize, srv: Server, root: String, seq: u64, thorough: bool,
-    cache: HashMap<u64, Value>, images: u64, coq_seen: std::collections::HashSet<u64>,
+    cache: HashMap<u64, Value>, images: u64, coq_seen: std::collections::HashSet<u64>, proto: usize, n_mv: usize, n_ro: usize,
 }
 fn dbg_case(cj: &Value) { if std::env::var("ZV_C19_DEBUG").is_ok() { let s = cj.to_string(); eprintln!("[{:?}] case {}", std::time::SystemTime::now().duration_since(std::time::UNIX_EPOCH).map(|d| d.as_millis() % 1000000).unwrap_or(0), &s[..s.len().min(400)]); } }
 fn fnv64(b: &[u8], mut h: u64) -> u64 { for x in b { h ^= *x as u64; h = h.wrapping_mul(0x100000001b3); } h }
@@ -703,6 +703,45 @@ fn tracer_in_sync(dir: &str, sim: &Disk) -> Result<(), String> {
     Err(why)
 }
 
+/// Correspondence of the write protocol: the traced operations of one sync()/put()/save, with the target file
+/// numbered 1 and the temporary file 2 and the writes that build the temporary file merged into one, must be the
+/// modelled atomic-replace sequence.  Anything of another shape is emitted as traced.
+fn protocol_case(cx: &mut Ctx, seg: &[Op], main: &str, what: &str) {
+    if cx.proto >= 160 || cx.shards.len() >= cx.budget { return; }
+    let mut d = Disk::new();
+    for op in seg { apply(&mut d, op); }
+    let img = match d.get(main) { Some(b) if b.len() <= 1400 => b.clone(), _ => return };
+    let num = |p: &str| if p == main { 1 } else { 2 };
+    let term = |op: &Op| -> String { match op {
+        Op::Open { p, creat, trunc } => format!("FOpen {} {} {}", num(p), coq_bool(*creat), coq_bool(*trunc)),
+        Op::SetLen { p, n } => format!("FSetLen {} {}", num(p), n),
+        Op::Write { p, off, data } => format!("FWrite {} {} {}", num(p), off, coq_bytes(data)),
+        Op::Fsync { p } => format!("FFsync {}", num(p)),
+        Op::Rename { a, b } => format!("FRename {} {}", num(a), num(b)),
+        Op::Unlink { p } => format!("FUnlink {}", num(p)),
+    } };
+    // shape: open(tmp, create+truncate); writes/set_len/fsync on tmp only; fsync(tmp); rename(tmp, main)
+    let n = seg.len();
+    let mut terms: Vec<String> = vec![];
+    let shaped = n >= 3 && matches!(&seg[0], Op::Open { p, creat: true, trunc: true } if p != main)
+        && matches!((&seg[n - 2], &seg[n - 1]), (Op::Fsync { p }, Op::Rename { a, b }) if p == a && b == main && a == op_path(&seg[0]))
+        && seg[1..n - 2].iter().all(|o| matches!(o, Op::Write { .. } | Op::SetLen { .. } | Op::Fsync { .. }) && op_path(o) == op_path(&seg[0]));
+    if shaped {
+        let tmp = op_path(&seg[0]).to_string();
+        let mut t = Disk::new();
+        for op in &seg[..n - 2] { apply(&mut t, op); }
+        let content = t.get(&tmp).cloned().unwrap_or_default();
+        terms.push(term(&seg[0]));
+        terms.push(term(&Op::Write { p: tmp.clone(), off: 0, data: content }));
+        terms.push(term(&seg[n - 2])); terms.push(term(&seg[n - 1]));
+    } else { for op in seg { terms.push(term(op)); } }
+    let mut h = fnv64(what.as_bytes(), 0x99);
+    for t in &terms { h = fnv64(t.as_bytes(), h); }
+    if !cx.coq_seen.insert(h) { return; }
+    cx.proto += 1;
+    cx.shards.push(format!("(COps [{}] {})", terms.join("; "), coq_bytes(&img)), json!({"cell": "protocol", "what": what, "ops": seg.iter().map(op_brief).collect::<Vec<_>>()}));
+}
+
 // ------------------------------------------------------------------ MmapVec
 // op codes: 0 push v | 1 pop | 2 set i v | 3 truncate n | 4 clear | 5 reserve n | 6 shrink_to_fit | 7 resize n v
 //           8 extend count start | 9 push_bulk count start | 10 sync | 11 sync, drop, open again
@@ -723,6 +762,7 @@ fn mv_case<T: El>(cx: &mut Ctx, ic: usize, growth: f64, sow: bool, ops: &[Vec<u6
     let mut marks: Vec<usize> = vec![];
     let mut last_sync: Option<usize> = None;
     let mut problem: Option<String> = None;
+    let mut sync_segs: Vec<(usize, usize)> = vec![];
     trace::start(&dir);
     let res = guarded(|| {
         let mut v = match MmapVec::<T>::create(&path, mk()) { Ok(v) => v, Err(e) => { problem = Some(format!("create failed: {}", e)); return; } };
@@ -745,7 +785,7 @@ fn mv_case<T: El>(cx: &mut Ctx, ic: usize, growth: f64, sow: bool, ops: &[Vec<u6
                        let before = marks.last().copied().unwrap_or(0);
                        v.extend(it).map(|_| for i in 0..a { shadow.push(b.wrapping_add(i) & mask); if sow && i + 1 < a { states.push(mv_state(&shadow)); marks.push(before); } }).map_err(|e| e.to_string()) }
                 9 => { let it: Vec<T> = (0..a).map(|i| T::from(b.wrapping_add(i))).collect(); v.push_bulk_simd(&it).map(|_| for i in 0..a { shadow.push(b.wrapping_add(i) & mask) }).map_err(|e| e.to_string()) }
-                10 => { last_sync = Some(states.len()); v.sync().map_err(|e| e.to_string()) }
+                10 => { last_sync = Some(states.len()); let t0 = trace::len(); let r = v.sync().map_err(|e| e.to_string()); sync_segs.push((t0, trace::len())); r }
                 11 => { last_sync = Some(states.len());
                         match v.sync() { Err(e) => Err(e.to_string()), Ok(()) => { drop(v); match MmapVec::<T>::open(&path, mk()) { Ok(nv) => { v = nv; Ok(()) } Err(e) => { problem = Some(format!("op {}: open after sync failed: {}", k, e)); return; } } } } }
                 _ => Ok(()),
@@ -782,6 +822,7 @@ fn mv_case<T: El>(cx: &mut Ctx, ic: usize, growth: f64, sow: bool, ops: &[Vec<u6
             cx.sum.fail(&cell, None, c, &format!("reopen after sync: {} is not the content at the last sync (op {}) or later", brief(&out), ls));
         }
     }
+    for (a, b) in sync_segs { if b <= tr.len() && a < b { protocol_case(cx, &tr[a..b], "v.bin", "MmapVec::sync"); } }
     // correspondence cases: small final images and a few damaged ones, with what the real reader saw
     if let Some(fin) = fin {
         if let Some(f) = fin.get("v.bin") {
@@ -795,9 +836,10 @@ fn mv_case<T: El>(cx: &mut Ctx, ic: usize, growth: f64, sow: bool, ops: &[Vec<u6
 }
 
 fn mv_coq_case(cx: &mut Ctx, es: usize, img: &[u8]) {
-    if img.len() > 1400 || cx.shards.len() >= cx.budget { return; }
+    if img.len() > 1400 || cx.shards.len() >= cx.budget || cx.n_mv * 2 >= cx.budget { return; }
     let h = fnv64(img, es as u64);
     if !cx.coq_seen.insert(h) { return; }
+    cx.n_mv += 1;
     let mut d = Disk::new(); d.insert("v.bin".into(), img.to_vec());
     let out = cx.observe("mmapvec", &json!({"es": es}), &d, "v.bin", false);
     let expect: Vec<i128> = if let Some(st) = out.get("ok") {
@@ -857,6 +899,7 @@ fn plain_case(cx: &mut Ctx, ops: &[Value], exhaustive: bool) {
     let st_json = |m: &BTreeMap<u32, Vec<u8>>| { let mut o = serde_json::Map::new(); for (k, v) in m { o.insert(k.to_string(), json!(hex(v))); } json!({"records": Value::Object(o)}) };
     let mut states = vec![]; let mut marks = vec![];
     let mut problem: Option<String> = None;
+    let mut put_segs: Vec<(usize, usize, u32)> = vec![];
     trace::start(&dir);
     let res = guarded(|| {
         let mut st = match PlainBlobStore::new(&sdir) { Ok(s) => s, Err(e) => { problem = Some(e.to_string()); return; } };
@@ -864,7 +907,8 @@ fn plain_case(cx: &mut Ctx, ops: &[Value], exhaustive: bool) {
         for (k, op) in ops.iter().enumerate() {
             match op[0].as_u64().unwrap_or(9) {
                 0 => { let data = unhex(op[1].as_str().unwrap_or(""));
-                       match st.put(&data) { Ok(id) => { if shadow.contains_key(&id) { problem = Some(format!("op {}: put reused live id {}", k, id)); return; } shadow.insert(id, data); }
+                       let t0 = trace::len();
+                       match st.put(&data) { Ok(id) => { put_segs.push((t0, trace::len(), id)); if shadow.contains_key(&id) { problem = Some(format!("op {}: put reused live id {}", k, id)); return; } shadow.insert(id, data); }
                                              Err(e) => { problem = Some(format!("op {}: put failed: {}", k, e)); return; } } }
                 1 => { let ids: Vec<u32> = shadow.keys().copied().collect();
                        if !ids.is_empty() { let id = ids[op[1].as_u64().unwrap_or(0) as usize % ids.len()];
@@ -886,6 +930,7 @@ fn plain_case(cx: &mut Ctx, ops: &[Value], exhaustive: bool) {
     let class_of = |out: &Value, kind: &str, _why: &str| -> Option<&'static str> {
         if kind.starts_with("truncate:") && out.get("ok").is_some() { Some("plain_record_unframed") } else { None }
     };
+    for (a, b, id) in put_segs { if b <= tr.len() && a < b { protocol_case(cx, &tr[a..b], &format!("store/{}", id), "PlainBlobStore::put"); } }
     let fin_state = states.last().cloned();
     judge_trace(cx, cell, "plain", &class_of, &cj, &json!({}), "store", true, &tr, &marks, &states, fin_state.as_ref(), &[], &mut r, exhaustive, None);
     let _ = std::fs::remove_dir_all(&dir);
@@ -955,8 +1000,9 @@ fn reorder_case(cx: &mut Ctx, builds: &[Value], exhaustive: bool) {
     let _ = std::fs::remove_dir_all(&dir);
 }
 fn reorder_coq_case(cx: &mut Ctx, img: &[u8]) {
-    if img.len() > 1200 || cx.shards.len() >= cx.budget { return; }
+    if img.len() > 1200 || cx.shards.len() >= cx.budget || cx.n_ro * 3 >= cx.budget { return; }
     if !cx.coq_seen.insert(fnv64(img, 0x77)) { return; }
+    cx.n_ro += 1;
     let mut d = Disk::new(); d.insert("m.bin".into(), img.to_vec());
     let out = cx.observe("reorder", &json!({}), &d, "m.bin", false);
     let expect: Vec<i128> = if let Some(st) = out.get("ok") {
@@ -1012,6 +1058,7 @@ fn once_case(cx: &mut Ctx, cell: &'static str, key: &'static str, cj: Value, sta
     if let Err(w) = tracer_in_sync(&dir, &sim) { panic!("C19 tracer out of sync with the file system:{}", w); }
     let states = vec![state.clone()];
     let marks = vec![tr.len()];
+    if key == "dict" { protocol_case(cx, &tr, fname, "SuffixArrayDictionary::save_to_file"); }
     judge_trace(cx, cell, key, class_of, &cj, &json!({}), fname, false, &tr, &marks, &states, Some(&state), bm, &mut r, exhaustive, img_state);
     let _ = std::fs::remove_dir_all(&dir);
     let _ = key;
@@ -1144,8 +1191,8 @@ pub fn run(args: &Args) {
     let mut cx = Ctx {
         sum: Summary::new("C19", "histories of real write operations (MmapVec push/pop/set/truncate/clear/reserve/shrink/resize/extend/bulk/sync/reopen at capacities around 0,1,block and growth factors 1.0..2.0; PlainBlobStore put/remove/reopen with records of 0..9000 bytes; ZReorderMap builds incl. overwriting an older map, runs of 1,2,127..129 and 40-bit values; ZipOffsetBlobStore, SuffixArrayDictionary, MemoryMappedOutput files) with the file operations traced; every crash image (each operation prefix, last write torn at boundary-biased or all byte positions, one unsynced write dropped, one 4 KiB block rolled back) and every truncation of the finished files is reopened and read completely in a separate process; non-trivial = history of >= 3 operations / map of >= 2 values / any write-once file"),
         shards: CoqShards::new(HEADER, 150),
-        budget: if args.thorough { 6000 } else { 900 },
-        srv, root: root.clone(), seq: 0, thorough: args.thorough, cache: HashMap::new(), images: 0, coq_seen: Default::default(),
+        budget: if args.thorough { 6000 } else { 1000 },
+        srv, root: root.clone(), seq: 0, thorough: args.thorough, cache: HashMap::new(), images: 0, coq_seen: Default::default(), proto: 0, n_mv: 0, n_ro: 0,
     };
     cx.sum.cell_status("MmapVec<u8>", "M+S"); cx.sum.cell_status("MmapVec<u64>", "M+S"); cx.sum.cell_status("ZReorderMap", "M+S");
     let mut rng = Rng::new(args.seed);
